@@ -712,10 +712,14 @@ class ModuleVistor(NodeVisitor):
             self._handleClassVar(target, annotation, expr, lineno, augassign=augassign)
 
     def _handleDocstringUpdate(self,
-            targetNode: ast.expr,
+            targetNode: Optional[ast.expr],
             expr: Optional[ast.expr],
             lineno: int
             ) -> None:
+        """
+        @param targetNode: The expression of the object which C{__doc__} attribute is assigned,
+            or L{None} when the name C{__doc__} is bound in the body of the current module or class.
+        """
         def warn(msg: str) -> None:
             module = self.builder.currentMod
             assert module is not None
@@ -727,8 +731,11 @@ class ModuleVistor(NodeVisitor):
             return
 
         # Figure out target object.
-        full_name = node2fullname(targetNode, scope)
-        if full_name is None:
+        obj: Optional[model.Documentable]
+        full_name = node2fullname(targetNode, scope) if targetNode is not None else None
+        if targetNode is None:
+            obj = scope
+        elif full_name is None:
             warn("Unable to figure out target for __doc__ assignment")
             # Don't return yet: we might have to warn about the value too.
             obj = None
@@ -770,7 +777,10 @@ class ModuleVistor(NodeVisitor):
         if isinstance(targetNode, ast.Name):
             target = targetNode.id
             scope = self.builder.current
-            if isinstance(scope, model.Module):
+            if target == '__doc__' and not augassign and isinstance(scope, (model.Module, model.Class)):
+                # Binding __doc__ in the body of a module or class sets its docstring.
+                self._handleDocstringUpdate(None, expr, lineno)
+            elif isinstance(scope, model.Module):
                 self._handleAssignmentInModule(target, annotation, expr, lineno, augassign=augassign)
             elif isinstance(scope, model.Class):
                 if augassign or not self._handleOldSchoolMethodDecoration(target, expr):
